@@ -143,6 +143,7 @@ def mapping_rules(ctx, repo):
     ctx.call(R6B.r_mapping_store_only, repo)
     ctx.call(R6B.r_merge_by_tag, repo)
     ctx.call(R6B.r_merge_value_rejected, repo)
+    ctx.call(R10.r_merge_list_entries, repo)
     ctx.call(RR2.r_insertion_order_load, repo)
     ctx.call(R6B.r_constructed_key_hashing, repo)
     ctx.call(R6B.r_pairs_from_nodes, repo)
